@@ -144,6 +144,11 @@ func getFlt() (*fltEnv, error) {
 				if strings.HasPrefix(addr, "timeout.test:") {
 					return nil, &net.OpError{Op: "dial", Net: network, Err: timeoutErr{}}
 				}
+				if strings.HasPrefix(addr, "slow.test:") {
+					// a target that takes a while to reach (C13: the client may be gone by the time the tunnel is up)
+					time.Sleep(150 * time.Millisecond)
+					addr = e.origin.Addr
+				}
 				return next(ctx, network, addr)
 			}
 		}
